@@ -220,9 +220,10 @@ def jobs(tier, seed):
     return js
 
 
-def outcome_key(obs):
+def outcome_key(obs, with_closed=True):
     return repr([(o['status'], o['error'], o['phase'], h64(o.get('body') or ''),
-                  o.get('closed')) for o in obs['ex']] + [obs['result']])
+                  o.get('closed') if with_closed else None) for o in obs['ex']]
+                + [obs['result']])
 
 
 def run_job(job):
@@ -344,6 +345,7 @@ def run_job(job):
         res['distinct'].add(h64((tag, 'trunc')))
         res['samples'].append(dict(stream=tag, bytes=len(s0), mode='every truncation'))
     elif job['kind'] == 'search':
+        has_surplus = any(tuple(i)[1].startswith('overrun') for i in job['items'])
         if total > 170:
             res['extra']['search_skipped_too_long'] = 1
             return res
@@ -353,7 +355,10 @@ def run_job(job):
             obs, fp = httpharn.run_http(spec, dict(pieces=list(hist)), want_fp=True)
             res['evaluations'] += 1
             term = obs['result'] != 'stopped'
-            out = outcome_key(obs) if term else None
+            # surplus bytes close the connection when the client gets to see them: whether
+            # that is before the run ends depends on the piece they arrive in, legitimately
+            # (judge() still checks every run against the reference)
+            out = outcome_key(obs, with_closed=not has_surplus) if term else None
             if term:
                 v = judge(spec, obs, streams)
                 if v and not viol:
